@@ -249,6 +249,8 @@ func c05ServerCertAttrs(kind string) (signer string, names []string, expired boo
 		return "A", []string{"server.test", "localhost", "127.0.0.1"}, false
 	case "nameonly":
 		return "A", []string{"server.test", "localhost"}, false
+	case "iponly":
+		return "A", []string{"127.0.0.1"}, false
 	case "wronghost":
 		return "A", []string{"other.test", "10.9.9.9"}, false
 	case "untrusted":
